@@ -13,6 +13,7 @@ import (
 	ethcmn "github.com/ethereum/go-ethereum/common"
 	ethcore "github.com/ethereum/go-ethereum/core"
 	ethtypes "github.com/ethereum/go-ethereum/core/types"
+	ethcrypto "github.com/ethereum/go-ethereum/crypto"
 	"github.com/pkg/errors"
 	"github.com/tendermint/tendermint/abci/types"
 	"github.com/tendermint/tendermint/libs/kv"
@@ -132,12 +133,16 @@ func (tx *Transaction) validateSigner(ctx *action.Context, signedTx action.Signe
 	//validate basic signature
 	signer := tx.getEthSigner(ctx)
 	ethTx := tx.tmToEthTx(ctx, signedTx.RawTx)
+	// WithSignature panics on a signature of any other length
+	if len(signedTx.Signatures[0].Signed) != ethcrypto.SignatureLength {
+		return ethtypes.ErrInvalidSig
+	}
 	ethTx, err := ethTx.WithSignature(signer, signedTx.Signatures[0].Signed)
 	if err != nil {
 		return err
 	}
 	// Accept only tx with matched chain ID
-	if ethTx.ChainId().Cmp(tx.ChainID) != 0 {
+	if tx.ChainID == nil || ethTx.ChainId().Cmp(tx.ChainID) != 0 {
 		return ethtypes.ErrInvalidChainId
 	}
 	// Make sure the transaction is signed properly.
